@@ -3,8 +3,8 @@
 # confirms the demonstration (fails with the change, passes on /repo) and runs the given checks against the changed tree
 wt=$1; demo=$2; shift 2
 cd "$(dirname "$0")/.."
-echo "== demo with the change (expect non-zero)"; (cd $wt && PYTHONPATH=$wt:/verif/vf/shim /venv/bin/python $demo >/tmp/seed_demo_a.log 2>&1; echo "exit=$?"; tail -2 /tmp/seed_demo_a.log | cut -c1-200)
-echo "== demo on /repo (expect 0)"; (cd /repo && PYTHONPATH=/repo:/verif/vf/shim /venv/bin/python -P $wt/$demo >/tmp/seed_demo_b.log 2>&1; echo "exit=$?"; tail -1 /tmp/seed_demo_b.log | cut -c1-200)
+echo "== demo with the change (expect non-zero)"; (cd $wt && PYTHONPATH=$wt:/verif/vf/shim /venv/bin/python $demo >/tmp/seed_demo_a_$(basename $wt).log 2>&1; echo "exit=$?"; tail -2 /tmp/seed_demo_a_$(basename $wt).log | cut -c1-200)
+echo "== demo on /repo (expect 0)"; (cd /repo && PYTHONPATH=/repo:/verif/vf/shim /venv/bin/python -P $wt/$demo >/tmp/seed_demo_b_$(basename $wt).log 2>&1; echo "exit=$?"; tail -1 /tmp/seed_demo_b_$(basename $wt).log | cut -c1-200)
 for c in "$@"; do
   VERIF_REPO=$wt VERIF_EVIDENCE_DIR=/tmp/seed_ev ./check $c --tier quick > /tmp/seed_check_$c.log 2>&1
   echo "== $c rc=$? $(grep -m1 'oracle=' /tmp/seed_check_$c.log | cut -c1-220)"; tail -1 /tmp/seed_check_$c.log | cut -c1-160
